@@ -24,6 +24,7 @@ import io
 import json
 import os
 import random
+import signal
 import types
 
 from ..translate import c14 as tr
@@ -488,6 +489,10 @@ class _EvalError(Exception):
     pass
 
 
+class _BudgetOut(_EvalError):
+    """the reference ran 4000 statements without reaching a step statement: the PROGRAM does not terminate here"""
+
+
 def ref_eval(e, ctx):
     if "lit" in e:
         return tr.val_from_model(e["lit"])
@@ -529,7 +534,7 @@ def ref_block(stmts, ctx, upd, flows, budget):
     for s in stmts:
         budget[0] -= 1
         if budget[0] < 0:
-            raise _EvalError()
+            raise _BudgetOut()
         if "u" in s:
             yield ("user", s["u"])
         elif "b" in s:
@@ -548,6 +553,9 @@ def ref_block(stmts, ctx, upd, flows, budget):
         elif "while" in s:
             c, b = s["while"]
             while ref_eval(c, ctx):
+                budget[0] -= 1
+                if budget[0] < 0:
+                    raise _BudgetOut()
                 try:
                     yield from ref_block(b, ctx, upd, flows, budget)
                 except _Break:
@@ -597,6 +605,7 @@ class Ref:
         self.abstain = False
         self.suspended = False
         self.error = False
+        self.budget_out = False
         self.finished_on_start = False  # some run ended within its starting event (region of the open finding)
         self.live_after_leave = False
         self.nsteps = 0
@@ -619,9 +628,10 @@ class Ref:
                     self.suspended = False
                 else:
                     self.abstain = True
-        except _EvalError:
+        except _EvalError as ex:
             self.error = True
             self.abstain = True
+            self.budget_out = self.budget_out or isinstance(ex, _BudgetOut)
         except (_Break, _Continue):
             self.abstain = True
 
@@ -649,9 +659,10 @@ class Ref:
             except StopIteration:
                 self.finished_on_start = True
                 cands.append((name, gen, None))
-            except _EvalError:
+            except _EvalError as ex:
                 self.error = True
                 self.abstain = True
+                self.budget_out = self.budget_out or isinstance(ex, _BudgetOut)
                 return
             except (_Break, _Continue):
                 self.abstain = True
@@ -1054,12 +1065,84 @@ def worker_init():
     _M.dispatcher = None
 
 
-def load_configs(src):
+
+# ----------------------------------------------------------------------------- CPU-time guard around the code under test
+# Every call into the code under test (parser, slide, compute_next_state / compute_next_steps, generate_events) runs
+# under a CPU-time limit of THIS process (ITIMER_VIRTUAL: independent of machine load and of the runner's SIGALRM),
+# in pool workers and in the main process alike (corpus, shrink candidates, the escalated search, --replay).  A call
+# that does not return is an OBSERVATION ({"exc": "hang"} / {"res": "hang"}): the oracle turns it into a violation
+# when the reference interpreter says that the structured program reaches its next statement (a structured program
+# that terminates must make the interpreter terminate), the correspondence accepts it only where the model runs out
+# of fuel as well.  After the first hang of a case the following calls get a short limit, and once HANG_TOTAL seconds
+# were spent in hanging calls the remaining calls of the case are not made at all (reported as hangs).
+
+class _Hang(BaseException):
+    pass
+
+
+HANG_CALL = 2.0     # s of CPU per call (normal calls: 1-20 ms)
+HANG_AFTER = 0.25   # per call after the first hang of the case
+HANG_TOTAL = 3.0    # CPU spent in hanging calls per case before the rest is skipped
+_G = types.SimpleNamespace(armed=False, hangs=0, spent=0.0, skipped=0)
+
+
+def _on_vtalrm(signum, frame):
+    if _G.armed:
+        raise _Hang()
+
+
+def guard_reset():
+    _G.armed = False
+    _G.hangs = 0
+    _G.spent = 0.0
+    _G.skipped = 0
+
+
+def guarded(fn, *args, _scale=1.0, _always=False, **kw):
+    """fn(*args) under the CPU limit; raises _Hang when it did not return."""
+    if _G.spent >= HANG_TOTAL and not _always:
+        _G.skipped += 1
+        raise _Hang()
+    limit = (HANG_CALL if _G.hangs == 0 else HANG_AFTER) * _scale
+    old = signal.signal(signal.SIGVTALRM, _on_vtalrm)
+    _G.armed = True
+    signal.setitimer(signal.ITIMER_VIRTUAL, limit, 0.2)   # repeats: a handler inside the code under test may swallow one
+    try:
+        try:
+            return fn(*args, **kw)
+        finally:
+            _G.armed = False
+            signal.setitimer(signal.ITIMER_VIRTUAL, 0)
+    except _Hang:
+        _G.hangs += 1
+        _G.spent += limit
+        raise
+    finally:
+        _G.armed = False
+        signal.setitimer(signal.ITIMER_VIRTUAL, 0)
+        signal.signal(signal.SIGVTALRM, old)
+
+
+def is_hang(d):
+    return isinstance(d, dict) and (d.get("exc") == "hang" or d.get("res") == "hang")
+
+
+def same_decision(a, b):
+    """REUSE comparisons make no claim about a call that did not return (the FOLLOW clause / the correspondence do)"""
+    return a == b or is_hang(a) or is_hang(b)
+
+
+def _load_configs_raw(src):
     r = _M.parse("gen.co", content=src, version="1.0", include_source_mapping=False)
     holder = types.SimpleNamespace(flow_configs={})
     for f in r["flows"]:
         _M.RT._load_flow_config(holder, f)
     return holder.flow_configs
+
+
+def load_configs(src):
+    """the repo's parser + `_load_flow_config`, under the CPU guard (raises _Hang)"""
+    return guarded(_load_configs_raw, src, _scale=5.0, _always=True)
 
 
 def to_real_event(ev):
@@ -1104,7 +1187,9 @@ def canon_steps(steps):
 
 def decide(history_real, cfgs, rails_config=None):
     try:
-        return {"ok": canon_steps(_M.fl.compute_next_steps(copy.deepcopy(history_real), cfgs, rails_config, []))}
+        return {"ok": canon_steps(guarded(_M.fl.compute_next_steps, copy.deepcopy(history_real), cfgs, rails_config, []))}
+    except _Hang:
+        return {"exc": "hang"}
     except (AssertionError, IndexError):
         return {"exc": "index"}
     except KeyError:
@@ -1129,10 +1214,10 @@ def zombie_flags(history, cfgs_factory):
         z = False
         for ev in actual:
             try:
-                st = fl.compute_next_state(st, copy.deepcopy(to_real_event(ev)))
+                st = guarded(fl.compute_next_state, st, copy.deepcopy(to_real_event(ev)))
                 if ev == {"e": "bot", "i": "stop"}:
                     st.flow_states = []
-            except Exception:  # noqa
+            except (Exception, _Hang):  # noqa
                 out.extend([z] * (len(actual) - len(out)))
                 return out
             z = z or any(fs.status == fl.FlowStatus.ACTIVE and isinstance(fs.head, int) and fs.head < 0 for fs in st.flow_states)
@@ -1456,13 +1541,15 @@ def llm_drive(case, cfgs, rails_config):
                                 "is_success": True, "return_value": rv, "events": evs})
                     nxt.extend(evs)
                 else:
-                    steps = fl.compute_next_steps(copy.deepcopy(hist), cfgs, rails_config, [])
+                    steps = guarded(fl.compute_next_steps, copy.deepcopy(hist), cfgs, rails_config, [])
                     nxt = [{k: v for k, v in e.items() if k not in ("uid", "event_created_at", "source_uid")} for e in steps]
                     if not nxt:
                         nxt = [{"type": "Listen"}]
                 hist.extend(nxt)
                 if nxt[-1]["type"] == "Listen":
                     break
+    except _Hang:
+        return hist, "hang: compute_next_steps did not return within the CPU limit"
     except Exception as e:  # noqa
         return hist, type(e).__name__ + ": " + str(e)[:120]
     finally:
@@ -1503,6 +1590,8 @@ def run_impl_llm(case):
             used_cfgs = load_configs(full)
             n_llm = len(load_configs(src))
             mc_all, why = model_cfgs(used_cfgs)
+        except _Hang:
+            return dict(obs, parse_exc="hang: the parser did not return within the CPU limit")
         except Exception as e:  # noqa
             return dict(obs, parse_exc=type(e).__name__ + ": " + str(e)[:200])
         obs["unsupported"] = why
@@ -1526,9 +1615,9 @@ def run_impl_llm(case):
         rng.shuffle(order)
         again = {k: decide(real[:k], used_cfgs, rails_config) for k in order}
         obs["used"] = used
-        obs["again_diff"] = [k for k in range(n + 1) if again[k] != used[k]]
+        obs["again_diff"] = [k for k in range(n + 1) if not same_decision(again[k], used[k])]
         ks = range(n + 1) if n <= 25 else sorted(rng.sample(range(n + 1), 25))
-        obs["fresh_diff"] = [[k, d, used[k]] for k in ks for d in [decide(real[:k], load_configs(full), rails_config)] if d != used[k]]
+        obs["fresh_diff"] = [[k, d, used[k]] for k in ks for d in [decide(real[:k], load_configs(full), rails_config)] if not same_decision(d, used[k])]
         mc2, _ = model_cfgs(used_cfgs)
         obs["cfgs_changed_by_use"] = mc2 != mc_all
         obs["zombie"] = [False] * (n + 1)
@@ -1548,14 +1637,29 @@ def run_impl_llm(case):
 
 
 def run_impl(case):
-    if case["kind"] == "llm":
-        return run_impl_llm(case)
+    guard_reset()
+    try:
+        obs = run_impl_llm(case) if case["kind"] == "llm" else run_impl_fn(case)
+    except _Hang:
+        # a guarded call outside compute_next_steps / slide / generate_events (they report their own hangs): the parser
+        obs = {"parse_exc": "hang: the parser / flow loader did not return within the CPU limit on a source it had parsed before"}
+    finally:
+        _G.armed = False
+        signal.setitimer(signal.ITIMER_VIRTUAL, 0)
+    if _G.hangs or _G.skipped:
+        obs["hangs"] = {"calls": _G.hangs, "skipped": _G.skipped}
+    return obs
+
+
+def run_impl_fn(case):
     obs = {}
     src = render(case["flows"])
     obs["src"] = src
     with contextlib.redirect_stdout(io.StringIO()):
         try:
             used_cfgs = load_configs(src)
+        except _Hang:
+            return {"parse_exc": "hang: the parser did not return within the CPU limit", "src": src}
         except Exception as e:  # noqa
             return {"parse_exc": type(e).__name__ + ": " + str(e)[:200], "src": src}
         mc, why = model_cfgs(used_cfgs)
@@ -1564,9 +1668,17 @@ def run_impl(case):
         history = case["history"]
         if case["kind"] == "rt":
             try:
-                fresh, used = run_rt(case, src)
+                fresh, used = guarded(run_rt, case, src, _scale=6.0)
             except tr.Unsupported as e:
                 return dict(obs, rt_skip=str(e))
+            except _Hang:
+                # generate_events did not return: go on with the generated history (kind fn); the prefix on which
+                # compute_next_steps spins is then found (and judged) below
+                obs["rt_hang"] = True
+                _G.spent = 0.0   # keep the short per-call limit, but do look for the prefix that spins
+                case = dict(case, kind="fn")
+                fresh = used = None
+        if case["kind"] == "rt":
             obs["rt_same"] = fresh == used
             try:
                 obs["gen"] = [{"events": [gen_event_for_model(e) for e in r["before"]], "new": [gen_canon_real(e) for e in r["new"]]}
@@ -1600,13 +1712,13 @@ def run_impl(case):
                 decide([to_real_event({"e": "user", "i": rng.choice(INTENTS_EXTRA)})] + real[k:], used_cfgs)
             again[k] = decide(real[:k], used_cfgs)
         obs["used"] = used
-        obs["again_diff"] = [k for k in range(n + 1) if again[k] != used[k]]
+        obs["again_diff"] = [k for k in range(n + 1) if not same_decision(again[k], used[k])]
         # (2) freshly parsed flow configs for every prefix
         ks = range(n + 1) if n <= 30 else sorted(rng.sample(range(n + 1), 30))
         fresh_diff = []
         for k in ks:
             d = decide(real[:k], load_configs(src))
-            if d != used[k]:
+            if not same_decision(d, used[k]):
                 fresh_diff.append([k, d, used[k]])
         obs["fresh_diff"] = fresh_diff
         obs["zombie"] = zombie_flags(history, lambda: load_configs(src))
@@ -1623,8 +1735,10 @@ def run_impl(case):
                 ctx = dict(ctxs[(head + len(slides)) % 3])
                 st = _M.fl.State(context=ctx, flow_states=[], flow_configs=fresh_cfgs)
                 try:
-                    h = _M.sliding.slide(st, fc, head)
+                    h = guarded(_M.sliding.slide, st, fc, head)
                     res = {"res": "at" if h is not None and h >= 0 else "fin", "head": h, "ctx": sorted([k, tr.val_to_model(v)] for k, v in st.context.items()), "upd": sorted([k, tr.val_to_model(v)] for k, v in st.context_updates.items())}
+                except _Hang:
+                    res = {"res": "hang"}
                 except tr.Unsupported:
                     res = {"res": "unsupported"}
                 except Exception as e:  # noqa
@@ -1653,8 +1767,10 @@ def run_impl(case):
                 ctx0 = ctxs[1]
                 st = _M.fl.State(context=dict(ctx0), flow_states=[], flow_configs={fid: fc2})
                 try:
-                    h = _M.sliding.slide(st, fc2, head)
+                    h = guarded(_M.sliding.slide, st, fc2, head)
                     res = {"res": "at" if h is not None and h >= 0 else "fin", "head": h, "upd": sorted([k, tr.val_to_model(v)] for k, v in st.context_updates.items())}
+                except _Hang:
+                    res = {"res": "hang"}
                 except tr.Unsupported:
                     res = {"res": "unsupported"}
                 except Exception as e:  # noqa
@@ -1726,6 +1842,8 @@ def compare(case, obs, mouts):
         o = s["out"]
         if o["res"] == "unsupported":
             continue
+        if o["res"] == "hang" and m["res"] == "oof":
+            continue   # the real loop spins, the model's fuel runs out: both do not terminate from here
         if o["res"] != m["res"]:
             return f"slide({s['flow']}, head={s['head']}): impl {o} model {m}"
         if o["res"] in ("at", "fin"):
@@ -1734,6 +1852,8 @@ def compare(case, obs, mouts):
     # decisions on every prefix
     for k, (a, b) in enumerate(zip(obs["used"], steps)):
         b = _canon_model_res(b)
+        if is_hang(a) and b == {"exc": "oof"}:
+            continue   # compute_next_steps spins, the model's fuel runs out
         if a != b:
             return f"prefix {k}: impl {a} model {b}"
     # the action loop (generate_events) turn by turn; not compared inside the region of an open finding
@@ -1749,6 +1869,8 @@ def compare(case, obs, mouts):
     for sm, m in zip(obs.get("slides_m", []), slides_m):
         o = sm["out"]
         if o["res"] in ("unsupported",):
+            continue
+        if o["res"] == "hang" and m["res"] == "oof":
             continue
         if o["res"] != m["res"]:
             return f"slide+labels({sm['flow']}, head={sm['head']}): impl {o} model {m}"
@@ -1850,6 +1972,11 @@ def oracle(case, obs):
         if "exc" in got:
             if got["exc"] == "expr":
                 continue  # an expression raised: documented as an exception, nothing decided
+            if got["exc"] == "hang":
+                # the reference ran the structured program up to its next statement, so the program terminates from
+                # here: an interpreter that follows it statement by statement terminates as well
+                return (f"FOLLOW: prefix {k}: compute_next_steps did not return (CPU limit of {HANG_CALL} s; the call takes milliseconds), "
+                        f"but the structured program terminates here: the flow's next statement gives {e}")
             return f"FOLLOW: prefix {k}: compute_next_steps raised {got['exc']}, expected {e}"
         if got["ok"] != e:
             return ("ZOMBIE" if (flags[k] or obs["zombie"][k]) else "FOLLOW") + f": prefix {k}: decided {got['ok']}, the flow's next statement gives {e}"
@@ -2032,6 +2159,8 @@ def tags(case, obs):
         t.append("zombie-region")
     if any("exc" in d for d in obs["used"]):
         t.append("exc:" + next(d["exc"] for d in obs["used"] if "exc" in d))
+    if obs.get("hangs"):
+        t.append("hang-observed")
     if any(ev["e"] == "hide" for ev in obs["history"]):
         t.append("hide")
     if obs.get("gen"):
@@ -2047,7 +2176,82 @@ def tags(case, obs):
     return t
 
 
+def _wild_loops(stmts):
+    """number of `while` loops whose termination is not evident from their shape: neither a body that starts with a
+    step statement (every iteration stops there) nor a counter loop (`while ($c < K)`, `$c = $c + n` (n >= 1) at the top
+    level of the body, no other assignment to $c and no `continue` before it)."""
+    def assigns(ss, v):
+        n = 0
+        for s in ss:
+            if "set" in s and s["set"][0] == v:
+                n += 1
+            elif "x" in s and s["x"][2] == v:
+                n += 1
+            elif "if" in s:
+                n += assigns(s["if"][1], v) + assigns(s["if"][2], v)
+            elif "while" in s:
+                n += assigns(s["while"][1], v)
+        return n
+
+    def has_continue(ss):
+        for s in ss:
+            if "continue" in s:
+                return True
+            if "if" in s and (has_continue(s["if"][1]) or has_continue(s["if"][2])):
+                return True
+        return False
+
+    n = 0
+    for s in stmts:
+        if "if" in s:
+            n += _wild_loops(s["if"][1]) + _wild_loops(s["if"][2])
+        elif "while" in s:
+            c, b = s["while"]
+            n += _wild_loops(b)
+            if b and ("u" in b[0] or "b" in b[0] or "x" in b[0]):
+                continue
+            ok = False
+            if "bin" in c and c["bin"][0] in ("lt", "le") and "var" in c["bin"][1] and "lit" in c["bin"][2]:
+                v = c["bin"][1]["var"]
+                for i, t in enumerate(b):
+                    if "set" in t and t["set"][0] == v:
+                        e = t["set"][1]
+                        inc = ("bin" in e and e["bin"][0] == "add" and e["bin"][1] == {"var": v} and "lit" in e["bin"][2]
+                               and isinstance(e["bin"][2]["lit"], dict) and e["bin"][2]["lit"].get("i", 0) >= 1)
+                        ok = inc and assigns(b, v) == 1 and not has_continue(b[:i])
+                        break
+            if not ok:
+                n += 1
+    return n
+
+
+def _terminates(case):
+    """the reference interpreter walks the candidate's history without running out of its statement budget"""
+    try:
+        r = Ref(case["flows"])
+        for ev in cut_history(case["history"]) or []:
+            r.feed(ev)
+            if r.budget_out:
+                return False
+        return True
+    except Exception:  # noqa
+        return True
+
+
 def shrink(case):
+    """Smaller cases.  A candidate must still be a TERMINATING structured program (a loop that lost its blocking first
+    statement or its counter increment spins forever in the reference, in the model and in the code under test alike —
+    that is no failing input): no new loop of non-evident termination, and the reference interpreter must get through
+    the candidate's history within its statement budget."""
+    wild = sum(_wild_loops(f["body"]) for f in case.get("flows", []))
+    for c in _shrink_raw(case):
+        if c["kind"] != "llm":
+            if sum(_wild_loops(f["body"]) for f in c["flows"]) > wild or not _terminates(c):
+                continue
+        yield c
+
+
+def _shrink_raw(case):
     if case["kind"] == "llm":
         if len(case["turns"]) > 1:
             yield dict(case, turns=case["turns"][:-1])
